@@ -692,26 +692,29 @@ func (w *vfWorld) balance(acct int) types.Currency {
 
 // debit spends from an account; the amounts are drawn so that most debits are affordable
 func (w *vfWorld) debit(acct int, v2 bool) {
+	// prefer an account that holds something
+	for try := 0; try < 3 && w.balance(acct).IsZero(); try++ {
+		acct = 1 + w.rng.Intn(3)
+	}
 	bal := w.balance(acct)
+	rem := bal
 	pick := func() types.Currency {
-		if bal.IsZero() || w.rng.Intn(3) == 0 {
+		if rem.IsZero() || w.rng.Intn(3) == 0 {
 			return types.ZeroCurrency
 		}
-		v := bal.Div64(uint64(2 + w.rng.Intn(6)))
-		if w.rng.Intn(4) == 0 {
-			v = bal // may exceed what is left: the error path
-		}
+		v := rem.Div64(uint64(1 + w.rng.Intn(5)))
+		rem = rem.Sub(v)
 		return v
 	}
 	u := vfUsage{rpc: pick(), sto: pick(), ing: pick(), egr: pick()}
 	if !v2 {
 		u.rr, u.rw = pick(), pick()
 	}
-	total := u.rpc.Add(u.sto).Add(u.ing).Add(u.egr).Add(u.rr).Add(u.rw)
-	affordable := total.Cmp(bal) <= 0 && (!v2 || !bal.IsZero() || w.hasAccount(acct))
-	if !v2 && !w.hasAccount(acct) {
-		affordable = false
+	if w.rng.Intn(7) == 0 {
+		u.sto = u.sto.Add(rem).Add(types.NewCurrency64(1)) // more than the account holds: the error path
 	}
+	total := u.rpc.Add(u.sto).Add(u.ing).Add(u.egr).Add(u.rr).Add(u.rw)
+	affordable := total.Cmp(bal) <= 0 && w.hasAccount(acct)
 	var fn func(db *Store) error
 	var term string
 	if !v2 {
@@ -723,12 +726,47 @@ func (w *vfWorld) debit(acct int, v2 bool) {
 		term = fmt.Sprintf("Debit2 %d %s", acct, u.coq())
 	}
 	w.em.Count(fmt.Sprintf("usage-op:debit:affordable=%v", affordable))
+	if affordable && !total.IsZero() {
+		for _, st := range w.fundingStatuses(acct, v2) {
+			w.em.Count("usage-op:debit:attributed-to-contract-in-status:" + st)
+		}
+	}
 	if w.do("debit", term, affordable, fn) {
 		w.record(fn)
 		if !total.IsZero() {
 			w.nontrivial = true
 		}
 	}
+}
+
+// statuses of the contracts that funded an account (the contracts a debit is attributed to)
+func (w *vfWorld) fundingStatuses(acct int, v2 bool) (out []string) {
+	q := `SELECT c.contract_status FROM contract_account_funding f INNER JOIN contracts c ON (f.contract_id=c.id) INNER JOIN accounts a ON (f.account_id=a.id) WHERE a.account_id=?`
+	if v2 {
+		q = `SELECT c.contract_status FROM contract_v2_account_funding f INNER JOIN contracts_v2 c ON (f.contract_id=c.id) INNER JOIN accounts a ON (f.account_id=a.id) WHERE a.account_id=?`
+	}
+	_ = w.db.transaction(func(tx *txn) error {
+		rows, err := tx.Query(q, encode(rhp3.Account(vfAccount(acct))))
+		if err != nil {
+			return err
+		}
+		defer rows.Close()
+		for rows.Next() {
+			if v2 {
+				var st contracts.V2ContractStatus
+				if rows.Scan(&st) == nil {
+					out = append(out, vfSt2[st])
+				}
+			} else {
+				var st contracts.ContractStatus
+				if rows.Scan(&st) == nil {
+					out = append(out, vfSt1[st])
+				}
+			}
+		}
+		return nil
+	})
+	return
 }
 
 func (w *vfWorld) hasAccount(acct int) bool {
@@ -1383,7 +1421,7 @@ func (w *vfWorld) generate() {
 			if !w.reconnect() {
 				w.extend(1, density)
 			}
-		case r < 19 && len(w.chain) > 0:
+		case r < 19 && len(w.chain) > 0 && rng.Intn(2) == 0:
 			w.rescan()
 		default:
 			w.extend(1, density)
